@@ -65,7 +65,8 @@ TraceStake ==
        /\ tb' = M(e.post_bal) /\ tr' = M(e.post_rew) /\ tsp' = M(e.sp_post)
   /\ UNCHANGED <<c10vars, c23vars>>
 
-(* C23: one kill / shutdown transaction or reward payment (or the staking that sets a trace up)        *)
+(* C23: one kill / shutdown transaction, reward payment or delegate unlock (or the staking that sets a   *)
+(* trace up)                                                                                            *)
 SetOf(q) == {q[i] : i \in 1..Len(q)}
 TraceKill ==
   /\ IsEvent("Kill")
@@ -256,5 +257,12 @@ C23_NoRewardAfterDeath ==
      /\ KeysPost = KeysPre /\ BalPost = BalPre /\ DeadPost = DeadPre /\ RecPost = RecPre
      /\ SameOutside(RewPre, RewPost, OwnKeys) /\ SameOutside(SprPre, SprPost, {NK})
      /\ DeadBefore => (RewPost = RewPre /\ SprPost = SprPre)
+\* a delegate taking his stake out (of a live or a dead provider) neither revives nor kills anybody: the
+\* provider records stay, and every stake-pool node that is still there keeps its dead flag (what the unlock
+\* pays and which pools it removes is C11's business and left free here)
+C23_UnlockKeepsDeath ==
+  (KillJudged /\ ev.op = "unlock") =>
+     /\ RecPost = RecPre
+     /\ \A k \in KeysPre \cap KeysPost : Val(DeadPost, k) = Val(DeadPre, k)
 C23_NoPanic == KillJudged => ~ev.panic
 =============================================================================
